@@ -14,6 +14,8 @@ pub struct SqliteError;
 pub enum DBError { AlreadyExists, MissingForeignKey, MissingField, NotFound, Unknown }
 impl std::fmt::Debug for SqliteError { #[verifier::external_body] fn fmt(&self, f: &mut std::fmt::Formatter<'_>) -> std::fmt::Result { unimplemented!() } }
 
+//@ transcribes teos-common/src/dbm.rs :: trait DatabaseConnection :: sha=be9604449006586e
+//@ transcribes watchtower-plugin/src/dbm.rs :: const TABLES :: sha=21c0a85503f1883b
 pub struct DBM {
     pub ghost towers: Map<TowerId, TowerRow>,
     pub ghost reg_receipts: Map<(TowerId, u32), RegRow>,             // PRIMARY KEY (tower_id, subscription_expiry)
@@ -51,6 +53,7 @@ impl DBM {
     }
 
     // one transaction: upsert towers; INSERT INTO registration_receipts
+//@ transcribes watchtower-plugin/src/dbm.rs :: impl DBM :: fn store_tower_record :: sha=5e929871c23040de
     #[verifier::external_body]
     pub fn store_tower_record(&mut self, tower_id: TowerId, net_addr: &str, receipt: &RegistrationReceipt) -> (r: Result<(), DBError>)
         ensures match r {
@@ -64,6 +67,7 @@ impl DBM {
         },
     { unimplemented!() }
     // SELECT towers JOIN newest registration receipt; + receipts, pending, invalid, proof; status is *derived*
+//@ transcribes watchtower-plugin/src/dbm.rs :: impl DBM :: fn load_tower_record :: sha=1e9430a85bc41032
     #[verifier::external_body]
     pub fn load_tower_record(&self, tower_id: TowerId) -> (r: Option<TowerInfo>)
         ensures match r {
@@ -77,6 +81,7 @@ impl DBM {
         },
     { unimplemented!() }
     // DELETE FROM towers WHERE tower_id   [cascades: registration_receipts, appointment_receipts (-> misbehaving_proofs), pending, invalid]
+//@ transcribes watchtower-plugin/src/dbm.rs :: impl DBM :: fn remove_tower_record :: sha=4c74fb6c3c213c45
     #[verifier::external_body]
     pub fn remove_tower_record(&mut self, tower_id: TowerId) -> (r: Result<(), DBError>)
         ensures
@@ -91,6 +96,7 @@ impl DBM {
             final(self).bodies == old(self).bodies,      // appointment bodies are not touched by this DELETE (no cascade towards `appointments`)
     { unimplemented!() }
     // one transaction: INSERT INTO appointment_receipts; UPDATE towers SET available_slots
+//@ transcribes watchtower-plugin/src/dbm.rs :: impl DBM :: fn store_appointment_receipt :: sha=5aa42fd5e0149d23
     #[verifier::external_body]
     pub fn store_appointment_receipt(&mut self, tower_id: TowerId, locator: Locator, available_slots: u32, receipt: &AppointmentReceipt) -> (r: Result<(), SqliteError>)
         ensures match r {
@@ -104,6 +110,7 @@ impl DBM {
         },
     { unimplemented!() }
     // SELECT start_block, user_signature, tower_signature FROM appointment_receipts WHERE tower_id = ?1 and locator = ?2
+//@ transcribes watchtower-plugin/src/dbm.rs :: impl DBM :: fn load_appointment_receipt :: sha=1bd0dcb59157170e
     #[verifier::external_body]
     pub fn load_appointment_receipt(&self, tower_id: TowerId, locator: Locator) -> (r: Option<AppointmentReceipt>)
         ensures match r {
@@ -112,6 +119,7 @@ impl DBM {
             None => !self.appt_receipts.contains_key((tower_id, locator)),
         },
     { unimplemented!() }
+//@ transcribes watchtower-plugin/src/dbm.rs :: impl DBM :: fn load_appointment :: sha=6e8f625192db1ebb
     #[verifier::external_body]
     pub fn load_appointment(&self, locator: Locator) -> (r: Option<Appointment>)
         ensures match r {
@@ -120,6 +128,7 @@ impl DBM {
         },
     { unimplemented!() }
     // one transaction: INSERT INTO appointments (error ignored: body may exist); INSERT INTO pending_appointments
+//@ transcribes watchtower-plugin/src/dbm.rs :: impl DBM :: fn store_pending_appointment :: sha=9c138af8f13ecd79
     #[verifier::external_body]
     pub fn store_pending_appointment(&mut self, tower_id: TowerId, appointment: &Appointment) -> (r: Result<(), SqliteError>)
         ensures match r {
@@ -134,6 +143,7 @@ impl DBM {
     { unimplemented!() }
     // count references (pending + invalid rows with this locator, all towers); if exactly one: DELETE FROM appointments
     // (cascades to that row); else DELETE the pending row.  Specified for the case the callers are in: the row exists.
+//@ transcribes watchtower-plugin/src/dbm.rs :: impl DBM :: fn delete_pending_appointment :: sha=542cd15e28c8afca
     #[verifier::external_body]
     pub fn delete_pending_appointment(&mut self, tower_id: TowerId, locator: Locator) -> (r: Result<(), SqliteError>)
         requires old(self).pending.contains((tower_id, locator)),
@@ -145,6 +155,7 @@ impl DBM {
             // the body goes with its last reference, and only then
             final(self).bodies == (if exists|k: (TowerId, Locator)| #[trigger] old(self).other_ref(tower_id, locator, k) { old(self).bodies } else { old(self).bodies.remove(locator) }),
     { unimplemented!() }
+//@ transcribes watchtower-plugin/src/dbm.rs :: impl DBM :: fn store_invalid_appointment :: sha=1656e3502824db7d
     #[verifier::external_body]
     pub fn store_invalid_appointment(&mut self, tower_id: TowerId, appointment: &Appointment) -> (r: Result<(), SqliteError>)
         ensures match r {
@@ -158,6 +169,7 @@ impl DBM {
         },
     { unimplemented!() }
     // one transaction: INSERT INTO appointment_receipts; INSERT INTO misbehaving_proofs
+//@ transcribes watchtower-plugin/src/dbm.rs :: impl DBM :: fn store_misbehaving_proof :: sha=258ae521ffcddd87
     #[verifier::external_body]
     pub fn store_misbehaving_proof(&mut self, tower_id: TowerId, proof: &MisbehaviorProof) -> (r: Result<(), SqliteError>)
         ensures match r {
